@@ -36,6 +36,9 @@ type Script struct {
 	// DetachMs: the command leaves a process behind that has left the process group (setsid, a daemon) and
 	// keeps the output pipe open for this long without writing; no signal fzf sends reaches it.
 	DetachMs int
+	// IgnoreTerm: the command (shell and whatever it forks) ignores every signal that can be ignored
+	// (`trap '' TERM INT HUP`); only SIGKILL ends it.
+	IgnoreTerm bool
 }
 
 // Proc is an entry of the simulated process table.
@@ -359,7 +362,11 @@ func (p *Proc) Wait() error {
 }
 
 // Kill delivers SIGKILL to pid (>0) or to process group -pid (<0).
-func (o *OS) Kill(pid int) error {
+func (o *OS) Kill(pid int) error { return o.KillSig(pid, 9) }
+
+// KillSig delivers a signal whose default action ends a process: SIGKILL always does, any other one only
+// where the command does not ignore it.
+func (o *OS) KillSig(pid int, sig int) error {
 	zsim.Yield("kill")
 	o.mu.Lock()
 	var victims []*Proc
@@ -377,6 +384,14 @@ func (o *OS) Kill(pid int) error {
 		o.mu.Lock()
 		already := p.Killed
 		alive := p.Alive
+		if sig != 9 && p.script.IgnoreTerm {
+			if alive {
+				hit = true // delivered (and ignored): kill(2) succeeds
+				o.logf("proc %d ignores signal %d", p.Pid, sig)
+			}
+			o.mu.Unlock()
+			continue
+		}
 		if !already && alive {
 			p.Killed = true
 			p.KilledAt = o.sim.Now()
